@@ -221,7 +221,8 @@ def run_random(res, profile, count):
         tpath = os.path.join(tdir, "%s-%d.trace.ndjson" % (tag, os.getpid()))
         with open(os.path.join(tdir, "wsim-%s.log" % tag), "w") as lf:
             r = C.run([C.harness_bin("wsim"), "random", tpath, "--seed", str(C.seed()), "--count", str(count),
-                       "--profile", profile, "--jobs", "16", "--workdir", os.path.join(C.WORK, "sim")],
+                       "--profile", profile, "--jobs", "16" if profile in ("small", "bigblk") else "3",
+                       "--workdir", os.path.join(C.WORK, "sim")],
                       cwd=C.HARNESS, stdout=lf, stderr=lf, timeout=3600)
         if r.returncode != 0 or not os.path.exists(tpath):
             raise C.ToolError("wsim random failed (%s)" % r.returncode)
